@@ -67,6 +67,7 @@ type Agg struct {
 	OtherProps             map[string]int
 	FreeRuns               int
 	EnumCases              int
+	EnumCasesOtherBuilds   int
 	EnumTotal              int
 	EnumDistinctNontrivial int
 	ByWorld                map[string]int
@@ -106,7 +107,12 @@ func (a *Agg) add(prop string, r *kernel.Result) {
 	if r.FreeRun {
 		a.FreeRuns++
 	}
-	if r.World == "signenum" {
+	if r.World == "signenum" && r.Variant != "asm" {
+		// the enumerated layer repeated in another build configuration: its
+		// cases are counted apart, so that "enumerated == total" keeps its
+		// meaning for the layer itself
+		a.EnumCasesOtherBuilds += r.Ops
+	} else if r.World == "signenum" {
 		a.EnumCases += r.Ops
 		if t, ok := r.Cfg["enum_total_cases"].(float64); ok {
 			a.EnumTotal = int(t)
